@@ -51,5 +51,8 @@ package badger
 //@ func badgerBatch.Commit
 //@   props C06
 //@   requires ba != nil && ba.db != nil
-//@   precall badger/v4\.Txn\)\.CommitAt$ :: !ba.chunk && ba.oldRoot.Hash != hash.EmptyHash() ==> defined(oldRootsMeta) && oldRootsMeta != nil && GSavedMeta == oldRootsMeta && inDom(oldRootsMeta.Roots, oldRootHash) && len(oldRootsMeta.Roots[oldRootHash]) >= 1 && oldRootsMeta.Roots[oldRootHash][len(oldRootsMeta.Roots[oldRootHash])-1] == rootHash
+//@   precall badger/v4\.Txn\)\.CommitAt$ :: !ba.chunk && ba.oldRoot.Hash != hash.EmptyHash() ==> defined(oldRootsMeta) && oldRootsMeta != nil
+//@   precall badger/v4\.Txn\)\.CommitAt$ :: !ba.chunk && ba.oldRoot.Hash != hash.EmptyHash() ==> defined(oldRootsMeta) && GSavedMeta == oldRootsMeta
+//@   precall badger/v4\.Txn\)\.CommitAt$ :: !ba.chunk && ba.oldRoot.Hash != hash.EmptyHash() ==> defined(oldRootsMeta) && inDom(oldRootsMeta.Roots, oldRootHash) && len(oldRootsMeta.Roots[oldRootHash]) >= 1
+//@   precall badger/v4\.Txn\)\.CommitAt$ :: !ba.chunk && ba.oldRoot.Hash != hash.EmptyHash() ==> defined(oldRootsMeta) && oldRootsMeta.Roots[oldRootHash][len(oldRootsMeta.Roots[oldRootHash])-1] == rootHash
 //@   note whenever a non-chunk batch with a non-empty old root reaches the metadata commit, the new root has been appended to the old root's derived-root list - also when both hashes are equal (an unchanged root carried into the next version) - and that metadata object is the one saved last. Prune treats a root without derived roots as "lone" and deletes the nodes it created, so a missing link makes a LATER finalized version unreadable once the earlier one is pruned
